@@ -132,7 +132,7 @@ def graph_tokens(model, raws, si, prefix):
 
 def preserve_line(src_bytes, out_bytes, si=0):
     s, o = fbwalk.parse(src_bytes), fbwalk.parse(out_bytes)
-    return " ".join(["preserve"] + graph_tokens(s, raw_ops(src_bytes), si, "s") + graph_tokens(o, raw_ops(out_bytes), si, "o")), s, o
+    return " ".join(["preserve", f"s.nsg={len(s['subgraphs'])}", f"o.nsg={len(o['subgraphs'])}"] + graph_tokens(s, raw_ops(src_bytes), si, "s") + graph_tokens(o, raw_ops(out_bytes), si, "o")), s, o
 
 
 # ------------------------------------------------------------------------------------------------
